@@ -118,9 +118,37 @@ def replay(rep, body):
 
     from harness import l2tie
 
+    from harness import bptie
+
+    n = 0
     for f in body.get("failures", []):
-        d = (f.get("case") or {}).get("scenario")
+        case = f.get("case") or {}
+        d = case.get("scenario")
+        n += 1
+        print(f"--- failure {n}: {f.get('kind')}: {str(f.get('what'))[:300]}")
         if d:
             scn = scenarios.from_description(d)
-            print(l2tie.check_scenario(scn, random.Random(1)))
+            res = l2tie.check_scenario(scn, random.Random(1))
+            print("    re-run on the current source:", {k: res[k] for k in ("n_paths", "kinds", "flags")}, "C01 mismatches:", res["c01"][:2], "C02 uncovered:", res["c02"][:2])
+            inp = (case.get("failure") or {}).get("input")
+            if inp:
+                print("    recorded failing input:", inp)
+        elif "alias_case" in case:
+            accts, tgt, mask, unk = case["alias_case"]
+            print("    resolve_address_alias now gives:", bptie.impl_alias(accts, tgt, mask, unk), "recorded model:", case.get("model"))
+        elif "funds_case" in case:
+            bal, val, mask, unk = case["funds_case"]
+            print("    insufficient-funds fork now gives:", bptie.impl_funds(bal, val, mask, unk), "recorded model:", case.get("model"))
+        elif "assert_case" in case:
+            ctab, mask, unk = case["assert_case"]
+            print("    vm.assertTrue now gives:", bptie.impl_assert(ctab, mask, unk), "recorded model:", case.get("model"))
+        elif "vmaddr_case" in case:
+            keys = case["vmaddr_case"]
+            print("    vm.addr: satisfiability per valuation now:", bptie.impl_vmaddr(keys, [1] * len(keys[0])))
+        elif "jump_case" in case:
+            valid_n, dst = case["jump_case"]
+            dst = [tuple(x) if isinstance(x, list) else x for x in dst]
+            print("    symbolic JUMP now gives:", bptie.impl_jump(valid_n, dst, 0)[2])
+        else:
+            print("    (obligation-level failure: re-run the check to rebuild)")
     return 0
